@@ -15,6 +15,14 @@
 (*   nc    calls the wrapped object has received                            *)
 (*   dead  the wrapped object has failed (stream state is then unspecified) *)
 (* Writer state:  [kind, cap, out, b, lim, idx, fk, fe, nc, dead, ub]        *)
+(*                                                                         *)
+(* How a descriptor delivers its bytes is not part of the state: a pipe    *)
+(* that hands over a block in bursts, a system call that transfers fewer   *)
+(* bytes than asked or fails with EINTR before transferring any are steps  *)
+(* of the environment that leave (src, pos) resp. out unchanged, i.e.      *)
+(* stuttering steps of this specification.  The traces therefore record    *)
+(* such sources and sinks with kind "fd" (and a flag naming the            *)
+(* environment: burst, intr); the contract they are judged by is the same. *)
 (***************************************************************************)
 EXTENDS Bytes
 
